@@ -14,6 +14,8 @@
 #include "cpu.h"
 #include "epoch.h"
 
+#include "verif_hook.h"
+
 namespace yakushima {
 
 class garbage_collection {
@@ -21,18 +23,22 @@ public:
     void fin() {
         // for cache
         if (std::get<gc_target_index>(cache_node_container_) != nullptr) {
+            YAKUSHIMA_VERIF_EVENT(YAKUSHIMA_VERIF_EV_RECLAIM, std::get<gc_target_index>(cache_node_container_), 0);
             delete std::get<gc_target_index>(cache_node_container_); // NOLINT
             std::get<gc_target_index>(cache_node_container_) = nullptr;
         }
 
+        YAKUSHIMA_VERIF_HOOK(YAKUSHIMA_VERIF_LOAD, &node_container_);
         while (!node_container_.empty()) {
             std::tuple<Epoch, base_node*> elem;
             if (!node_container_.try_pop(elem)) { continue; }
+            YAKUSHIMA_VERIF_EVENT(YAKUSHIMA_VERIF_EV_RECLAIM, std::get<gc_target_index>(elem), 0);
             delete std::get<gc_target_index>(elem); // NOLINT
         }
 
         // for cache
         if (std::get<gc_target_index>(cache_value_container_) != nullptr) {
+            YAKUSHIMA_VERIF_EVENT(YAKUSHIMA_VERIF_EV_RECLAIM, std::get<gc_target_index>(cache_value_container_), 1);
             ::operator delete(
                     std::get<gc_target_index>(cache_value_container_),
                     std::get<gc_target_size_index>(cache_value_container_),
@@ -40,9 +46,11 @@ public:
             std::get<gc_target_index>(cache_value_container_) = nullptr;
         }
 
+        YAKUSHIMA_VERIF_HOOK(YAKUSHIMA_VERIF_LOAD, &value_container_);
         while (!value_container_.empty()) {
             std::tuple<Epoch, void*, std::size_t, std::align_val_t> elem;
             if (!value_container_.try_pop(elem)) { continue; }
+            YAKUSHIMA_VERIF_EVENT(YAKUSHIMA_VERIF_EV_RECLAIM, std::get<gc_target_index>(elem), 1);
             ::operator delete(std::get<gc_target_index>(elem),
                               std::get<gc_target_size_index>(elem),
                               std::get<gc_target_align_index>(elem));
@@ -62,11 +70,13 @@ public:
             if (std::get<gc_epoch_index>(cache_node_container_) >= gc_epoch) {
                 return;
             }
+            YAKUSHIMA_VERIF_EVENT(YAKUSHIMA_VERIF_EV_RECLAIM, std::get<gc_target_index>(cache_node_container_), 0);
             delete std::get<gc_target_index>(cache_node_container_); // NOLINT
             std::get<gc_target_index>(cache_node_container_) = nullptr;
         }
 
         // for container
+        YAKUSHIMA_VERIF_HOOK(YAKUSHIMA_VERIF_LOAD, &node_container_);
         while (!node_container_.empty()) {
             std::tuple<Epoch, base_node*> elem;
             if (!node_container_.try_pop(elem)) { continue; }
@@ -74,6 +84,7 @@ public:
                 cache_node_container_ = elem;
                 return;
             }
+            YAKUSHIMA_VERIF_EVENT(YAKUSHIMA_VERIF_EV_RECLAIM, std::get<gc_target_index>(elem), 0);
             delete std::get<gc_target_index>(elem); // NOLINT
         }
     }
@@ -85,6 +96,7 @@ public:
             if (std::get<gc_epoch_index>(cache_value_container_) >= gc_epoch) {
                 return;
             }
+            YAKUSHIMA_VERIF_EVENT(YAKUSHIMA_VERIF_EV_RECLAIM, std::get<gc_target_index>(cache_value_container_), 1);
             ::operator delete(
                     std::get<gc_target_index>(cache_value_container_),
                     std::get<gc_target_size_index>(cache_value_container_),
@@ -92,6 +104,7 @@ public:
             std::get<gc_target_index>(cache_value_container_) = nullptr;
         }
 
+        YAKUSHIMA_VERIF_HOOK(YAKUSHIMA_VERIF_LOAD, &value_container_);
         while (!value_container_.empty()) {
             std::tuple<Epoch, void*, std::size_t, std::align_val_t> elem;
             if (!value_container_.try_pop(elem)) { continue; }
@@ -99,6 +112,7 @@ public:
                 cache_value_container_ = elem;
                 return;
             }
+            YAKUSHIMA_VERIF_EVENT(YAKUSHIMA_VERIF_EV_RECLAIM, std::get<gc_target_index>(elem), 1);
             ::operator delete(std::get<gc_target_index>(elem),
                               std::get<gc_target_size_index>(elem),
                               std::get<gc_target_align_index>(elem));
@@ -106,19 +120,25 @@ public:
     }
 
     static Epoch get_gc_epoch() {
+        YAKUSHIMA_VERIF_HOOK(YAKUSHIMA_VERIF_LOAD, &gc_epoch_);
         return gc_epoch_.load(std::memory_order_acquire);
     }
 
     void push_node_container(std::tuple<Epoch, base_node*> elem) {
+        YAKUSHIMA_VERIF_EVENT(YAKUSHIMA_VERIF_EV_RETIRE, std::get<gc_target_index>(elem), std::get<gc_epoch_index>(elem));
+        YAKUSHIMA_VERIF_HOOK(YAKUSHIMA_VERIF_STORE, &node_container_);
         node_container_.push(elem);
     }
 
     void push_value_container(
             std::tuple<Epoch, void*, std::size_t, std::align_val_t> elem) {
+        YAKUSHIMA_VERIF_EVENT(YAKUSHIMA_VERIF_EV_RETIRE, std::get<gc_target_index>(elem), std::get<gc_epoch_index>(elem));
+        YAKUSHIMA_VERIF_HOOK(YAKUSHIMA_VERIF_STORE, &value_container_);
         value_container_.push(elem);
     }
 
     static void set_gc_epoch(const Epoch epoch) {
+        YAKUSHIMA_VERIF_HOOK(YAKUSHIMA_VERIF_STORE, &gc_epoch_);
         gc_epoch_.store(epoch, std::memory_order_release);
     }
 
